@@ -842,6 +842,17 @@ func c13Generate(o *out, r *rng, thorough bool) {
 		}
 		c13ObserveX(o, "x", c, c13Values(r, c, c13Size(r)))
 	}
+	// bounds far beyond 2^31 (the timers of the events package go up to 1.2e12) at one or two significant figures,
+	// where the counts array stays short
+	for i := 0; i < 12*mul; i++ {
+		bits := 32 + r.intn(13)
+		lo := int64(1)
+		if i%3 == 1 {
+			lo = int64(1) << uint(31+r.intn(3))
+		}
+		c := hcfg{lo, int64(1)<<uint(bits) + r.i64n(int64(1)<<uint(bits)), 1 + i%2}
+		c13ObserveX(o, "x", c, c13Values(r, c, c13Size(r)))
+	}
 }
 
 func init() {
